@@ -6,6 +6,13 @@ Line protocol for C19 (Float, bit patterns):
 answers `none` | `val <f>` | `inf` | `error` for `compute_time_step`, and with
 `sol` instead of `cts` for `Solver._compute_timestep`; `hmin A ...` answers the
 value `compute_h_minimum` leaves in `h_minimum`.
+
+Stateful lines (one integrator living across lines; `Model.AdaptDt.IState`):
+  `hnew`                                   fresh integrator            -> `ok`
+  `hfix b=<0|1> A ...`                     `set_fixed_h(b)`            -> `ok`
+  `hcts cfl=<f> und=<f> A ...`             `compute_time_step`         -> result
+  `hsol cfl=<f> und=<f> A ...`             `Solver._compute_timestep`  -> result
+  `hstate`                                 -> `flag=<-|0|1> fixed=<0|1> hmin=<-|inf|f>`
 -/
 namespace PysphVerif.Driver.C19
 open PysphVerif.Wire PysphVerif.AdaptDt
@@ -81,6 +88,38 @@ def handle (line : String) : String :=
         | _, _, _ => "bad-op"
       | _ => "bad-op"
 
+def showState (s : IState Float) : String :=
+  let fl := match s.flag with | none => "-" | some true => "1" | some false => "0"
+  let hm := match s.hMin with
+    | none => "-"
+    | some none => "inf"
+    | some (some h) => showFloatBits h
+  "flag=" ++ fl ++ " fixed=" ++ (if s.fixedH then "1" else "0") ++ " hmin=" ++ hm
+
+def hstep (s : IState Float) (line : String) : IState Float × String :=
+  match groups (tokens line) with
+  | [] => (s, "bad-op")
+  | hd :: arrGroups =>
+    match hd with
+    | ["hnew"] => if arrGroups.isEmpty then (IState.init, "ok") else (s, "bad-op")
+    | ["hstate"] => if arrGroups.isEmpty then (s, showState s) else (s, "bad-op")
+    | "hfix" :: rest =>
+      (match arrGroups.mapM parseArr, lookup (kvs rest) "b" with
+       | some arrs, some "1" => (s.setFixedH true arrs, "ok")
+       | some arrs, some "0" => (s.setFixedH false arrs, "ok")
+       | _, _ => (s, "bad-op"))
+    | cmd :: rest =>
+      if cmd = "hcts" || cmd = "hsol" then
+        let kv := kvs rest
+        match arrGroups.mapM parseArr, (lookup kv "cfl") >>= parseFloatBits?,
+              (lookup kv "und") >>= parseFloatBits? with
+        | some arrs, some cfl, some und =>
+          let r := s.cts Float.sqrt arrs cfl
+          (r.1, showRes (if cmd = "hcts" then r.2 else solverTimestepOf r.2 und))
+        | _, _, _ => (s, "bad-op")
+      else (s, handle line)
+    | _ => (s, "bad-op")
+
 end PysphVerif.Driver.C19
 
-def main : IO Unit := PysphVerif.Driver.loopPure PysphVerif.Driver.C19.handle
+def main : IO Unit := PysphVerif.Driver.loop PysphVerif.Driver.C19.hstep PysphVerif.AdaptDt.IState.init
